@@ -229,6 +229,7 @@ class Engine(ExprMixin, CallMixin, StmtMixin):
         self.cur_module = target.split(":")[0]
         self.obligations = []
         self.touched = set()
+        self.ghost_hit = set()
         self.written = set()
         self.raised = []
         self.binders = []
@@ -300,6 +301,12 @@ class Engine(ExprMixin, CallMixin, StmtMixin):
             rep.error = f"extract: {e}"
         except Unsupported as e:
             rep.error = f"unsupported: {e}"
+        # vacuity guard: every ghost annotation is attached to a statement that exists in this body (and was reached)
+        if not rep.error:
+            dead = [f"{w_}:{k_}" for w_, tbl in (("before", c.ghost_before), ("after", c.ghost_after)) for k_ in tbl
+                    if (w_, k_) not in self.ghost_hit]
+            if dead:
+                rep.error = "ghost annotation matches no reachable statement: " + "; ".join(dead)[:300]
         rep.obligations = self.obligations
         # vacuity guard: every postcondition of the contract was generated on at least one path
         rep.untouched = [lab for lab, _ in c.ensures if f"post:{lab}" not in self.touched] if not rep.error else []
@@ -356,5 +363,6 @@ class Engine(ExprMixin, CallMixin, StmtMixin):
         for r, wv in zip(matches, whens):
             for k, e in enumerate(r.ensures):
                 e = e[6:] if e.startswith("ghost:") else e
-                self.oblige(o.st, "post-exc", f"{exc.cls}:ensures#{k}", z3.Implies(wv, self.spec_bool(e, post_st)), fn)
+                lab = (r.labels[k] if k < len(r.labels) and r.labels[k] else f"ensures#{k}")
+                self.oblige(o.st, "post-exc", f"{exc.cls}:{lab}", z3.Implies(wv, self.spec_bool(e, post_st)), fn)
         self._frame(c, o, pre, fn, kind="frame-exc")
